@@ -345,7 +345,10 @@ def check_callee_frame(st, c, targets, line):
 
 def call_contract(st, c, args, kwargs, n=None, closure_env=None):
     if c.model is not None:
-        return c.model(st, args, kwargs)
+        r = c.model(st, args, kwargs)
+        if not st.spec:
+            st.call_log.append((c.key, list(args), r))
+        return r
     if closure_env is not None:
         env = bind_args(st, c, args, kwargs, closure_env, len(args))
         for p in list(env.keys()):
@@ -398,8 +401,10 @@ def call_contract(st, c, args, kwargs, n=None, closure_env=None):
             envr['result'] = res
             for en in c.ensures:
                 st.assume(E.spec_bool(st, en, envr, old_heap=pre_heap, old_locals=env))
+            st.call_log.append((c.key, [env[p] for p in c.params if p in env], res))
             return res
         cls = outcomes[k]
+        st.call_log.append((c.key, [env[p] for p in c.params if p in env], None))
         ref = st.new_ref(cls if cls in R.CLASSES else 'OtherException')
         envr = dict(env)
         envr['exc'] = Val(T.TRef(cls), ref)
@@ -895,6 +900,8 @@ def bi_same(st, args, kw):
     a, b = args
     if a.t.kind in ('seq',) or b.t.kind in ('seq',):
         return E.mk_bool(z3.And(a.z.n == b.z.n, a.z.arr == b.z.arr))
+    if a.t.kind == 'none' or b.t.kind == 'none':
+        return E.mk_bool(B.identical(st, a, b))
     if a.t != b.t:
         b = st.coerce(b, a.t)
     return E.mk_bool(a.z == b.z)
@@ -904,6 +911,31 @@ def bi_allocated(st, args, kw):
     """allocated(x): x is an object that exists now (0 < ref < allocation counter)"""
     v = args[0]
     return E.mk_bool(z3.And(v.z > 0, v.z < st.alloc))
+
+
+def bi_ncalls(st, args, kw):
+    """ncalls('Callee.key'): number of calls to that contract made so far on this path (ghost call log)"""
+    key = z3.simplify(args[0].z).as_string()
+    return E.mk_int(len([1 for (k, a, r) in st.call_log if k == key]))
+
+
+def bi_call_arg(st, args, kw):
+    key = z3.simplify(args[0].z).as_string()
+    i = z3.simplify(args[1].z).as_long()
+    j = z3.simplify(args[2].z).as_long()
+    hits = [(a, r) for (k, a, r) in st.call_log if k == key]
+    if i >= len(hits):
+        return E.NONE_VAL()      # guard uses of call_arg with ncalls(...)
+    return hits[i][0][j]
+
+
+def bi_call_result(st, args, kw):
+    key = z3.simplify(args[0].z).as_string()
+    i = z3.simplify(args[1].z).as_long()
+    hits = [(a, r) for (k, a, r) in st.call_log if k == key]
+    if i >= len(hits) or hits[i][1] is None:
+        return E.NONE_VAL()
+    return hits[i][1]
 
 
 def bi_mkseq(st, args, kw):
@@ -963,7 +995,8 @@ def bi_dict(st, args, kw):
 
 
 _BUILTINS = {
-    'mkseq': bi_mkseq, 'allocated': bi_allocated, 'trig': bi_trig, 'same': bi_same, 'is_list': bi_is_list, 'store': bi_store, 'dict_has': bi_dict_has,
+    'mkseq': bi_mkseq, 'allocated': bi_allocated, 'ncalls': bi_ncalls, 'call_arg': bi_call_arg,
+    'call_result': bi_call_result, 'trig': bi_trig, 'same': bi_same, 'is_list': bi_is_list, 'store': bi_store, 'dict_has': bi_dict_has,
     'dict_get': bi_dict_get, 'dict_keys': bi_dict_keys, 'dict': bi_dict, 'dict_index': bi_dict_index,
     'len': bi_len, 'set': bi_set, 'list': bi_list, 'tuple': bi_tuple, 'min': bi_min, 'max': bi_max,
     'seq': bi_seq, 'setv': bi_setv, 'set_of': bi_set_of, 'sorted_by': bi_sorted_by,
